@@ -317,8 +317,7 @@ def execute(plan, choices=None):
             tol = _tol(S, sig, rho)
             if sig != 1.0:
                 any_sig_not_one = True
-            if kind == "topdown":
-                preds = [p_ for p_ in preds if not np.isnan(p_[0]).all()]
+
             if kind == "single":
                 if len(preds) != 1:
                     V("wrong_count", f"single:{provider}", f"frame {fi}: {len(preds)} predictions for a single-instance frame")
